@@ -222,6 +222,8 @@ into the broker client): the observation stream carries the markers `made`, `clo
 
 * a Deferred fires only after it was handed out, and at most once;
 * `ok b` only with a packet that carries the request's correlation id;
+* an attempt to fire a Deferred a second time (Twisted's `AlreadyCalledError` escaping from a call) is a
+  violation even though no callback runs twice;
 * exactly once at `close()`: every Deferred that is unfired when a `close()` goes ahead has fired by
   the time that `close()` call is over (the end of the step for a top-level call, the matching
   `hookEnd` for a re-entrant one) — `close()` may not be derailed by what the callbacks do. -/
@@ -254,6 +256,8 @@ def r06Ob (m : RM) : ObR → RM
       else { m with depth := m.depth - 1, ok := m.ok && m.depth != 0 }
     | none => { m with depth := m.depth - 1, ok := m.ok && m.depth != 0 }
   | .fuelOut => { m with ok := false }
+  -- Twisted's AlreadyCalledError: the implementation tried to fire a Deferred a second time
+  | .raisedOther w => { m with ok := m.ok && w != "other:AlreadyCalledError" }
   | _ => m
 
 /-- end of a top-level step: all hooks have returned; a top-level `close()` is over -/
